@@ -1,14 +1,1767 @@
-//! C05 — not built yet.
-use crate::engine::{Ctx, Property};
+//! C05 — glyph positioning follows OpenType GPOS semantics (plus legacy kern).
+//!
+//! Differential check: a *program model* (GDEF + GPOS lookups of types 1-9 + kern table) is
+//! generated, encoded with my own encoders (`fontgen::otl_gpos`), embedded in a complete font
+//! (`fontgen::basic::BasicFont`) and run through allsorts (`Font::shape`, `gpos::apply_features`,
+//! `GlyphLayout::glyph_positions`). The result is compared with `refmodel::otl_gpos`, an
+//! interpreter written from the OpenType specification, at two levels: the per-glyph
+//! adjustments/attachments (`Info.kerning`, `Info.placement`) and the absolute pen positions.
+//!
+//! Known deviations of allsorts are handled by *defect models* (DESIGN §3.6): a mismatching
+//! case is attributed to a set of known deviations only if the reference with exactly those
+//! deviations switched on differs from the spec reference and reproduces allsorts' output
+//! exactly; everything else is a failure.
+
+use crate::engine::util::pick;
+use crate::engine::{CaseResult, Ctx, Fail, Property, Rec};
+use crate::fontgen::basic::BasicFont;
+use crate::fontgen::otl_gpos::*;
+use crate::refmodel::otl_gpos::{self as refm, dev, Attach, GlyphIn, GlyphOut, Interp, KernBytes, RunResult, Step};
+use allsorts::binary::read::ReadScope;
+use allsorts::font::Font;
+use allsorts::font_data::FontData;
+use allsorts::glyph_position::{GlyphLayout, TextDirection};
+use allsorts::gpos::{self, Info, Placement};
+use allsorts::gsub::{FeatureInfo, Features, GlyphOrigin, RawGlyph, RawGlyphFlags};
+use allsorts::layout::{new_layout_cache, GDEFTable, LayoutTable, GPOS};
+use allsorts::tables::kern::KernTable;
+use proptest::prelude::*;
+use std::collections::BTreeMap;
 
 pub struct C05;
+
+const TAPE_LEN: usize = 900;
+
+// ---------------------------------------------------------------------------------------------
+// entropy tape: every random choice is a value drawn by proptest; 0 means "simplest"
+
+struct Tape<'a> {
+    v: &'a [u32],
+    pos: usize,
+}
+
+impl<'a> Tape<'a> {
+    fn raw(&mut self) -> u32 {
+        let r = self.v.get(self.pos).copied().unwrap_or(0);
+        self.pos += 1;
+        r
+    }
+    fn below(&mut self, n: usize) -> usize {
+        let r = self.raw();
+        pick(n, r)
+    }
+    /// inclusive range
+    fn range(&mut self, lo: usize, hi: usize) -> usize {
+        lo + self.below(hi - lo + 1)
+    }
+    /// true with probability p% (a zero tape gives false)
+    fn chance(&mut self, p: u32) -> bool {
+        let r = self.raw();
+        ((r as u64 * 100) >> 32) as u32 >= 100 - p.min(100)
+    }
+    fn weighted(&mut self, weights: &[u32]) -> usize {
+        let total: u32 = weights.iter().sum();
+        let mut x = self.below(total as usize) as u32;
+        for (i, w) in weights.iter().enumerate() {
+            if x < *w {
+                return i;
+            }
+            x -= w;
+        }
+        weights.len() - 1
+    }
+    fn signed(&mut self, mag: usize) -> i16 {
+        let m = self.below(mag + 1) as i32;
+        if self.chance(50) {
+            -m as i16
+        } else {
+            m as i16
+        }
+    }
+    /// design-unit value: mostly small, sometimes large, rarely extreme
+    fn value(&mut self) -> i16 {
+        match self.weighted(&[70, 22, 6, 2]) {
+            0 => self.signed(60) * 5,
+            1 => self.signed(1200),
+            2 => self.signed(9000),
+            _ => [i16::MAX, i16::MIN, -1, 1, 16384, -16384][self.below(6)],
+        }
+    }
+    fn coord(&mut self) -> i16 {
+        match self.weighted(&[80, 18, 2]) {
+            0 => self.signed(100) * 10,
+            1 => self.signed(2500),
+            _ => [i16::MAX, i16::MIN, 12345, -12345][self.below(4)],
+        }
+    }
+}
+
+// ---------------------------------------------------------------------------------------------
+// case model
+
+#[derive(Clone, Debug)]
+pub struct Program {
+    pub nglyphs: u16,
+    pub gdef: Option<GdefModel>,
+    pub gpos: Option<GposModel>,
+    pub kern: Option<KernModel>,
+    /// font advance per glyph id
+    pub advances: Vec<u16>,
+    pub strings: Vec<Vec<GlyphIn>>,
+    /// custom feature tags (applied after the base list), in application order
+    pub custom: Vec<[u8; 4]>,
+    pub lang: Option<[u8; 4]>,
+    pub kerning: Vec<bool>,
+    /// every mark has a zero font advance (needed for the RTL position check)
+    pub zero_advance_marks: bool,
+}
+
+struct Universe {
+    all: Vec<Gid>,
+    classes: Vec<u16>,
+    marks: Vec<Gid>,
+    nonmarks: Vec<Gid>,
+    ligs: Vec<Gid>,
+}
+
+fn gen_cov(t: &mut Tape, pool: &[Gid], density: u32) -> Cov {
+    let mut g: Vec<Gid> = Vec::new();
+    for p in pool {
+        if t.chance(density) {
+            g.push(*p);
+        }
+    }
+    if g.is_empty() && !pool.is_empty() {
+        g.push(pool[t.below(pool.len())]);
+    }
+    Cov::new(g, 1 + t.below(3) as u8)
+}
+
+/// coverage that is sure to contain `must`
+fn gen_cov_with(t: &mut Tape, pool: &[Gid], density: u32, must: &[Gid]) -> Cov {
+    let mut c = gen_cov(t, pool, density);
+    let mut g = c.glyphs.clone();
+    g.extend_from_slice(must);
+    c = Cov::new(g, c.fmt);
+    c
+}
+
+fn gen_classdef(t: &mut Tape, pool: &[Gid], nclasses: usize) -> ClassDefM {
+    let mut map = BTreeMap::new();
+    for g in pool {
+        let c = t.below(nclasses) as u16;
+        if c != 0 {
+            map.insert(*g, c);
+        }
+    }
+    ClassDefM { map, fmt: 1 + t.below(3) as u8 }
+}
+
+fn gen_value_format(t: &mut Tape, allow_zero: bool) -> u8 {
+    let mut f = match t.weighted(&[20, 30, 10, 10, 30]) {
+        0 => 0u8,
+        1 => 4,       // xAdvance only (kerning)
+        2 => 1,       // xPlacement
+        3 => 3,       // x/y placement
+        _ => t.below(16) as u8,
+    };
+    if f == 0 && !allow_zero {
+        f = 4;
+    }
+    if t.chance(8) {
+        f |= (t.below(16) as u8) << 4; // NULL device offsets
+    }
+    f
+}
+
+fn gen_value(t: &mut Tape, fmt: u8) -> Value {
+    let mut v = Value::default();
+    if fmt & 1 != 0 {
+        v.xp = t.value();
+    }
+    if fmt & 2 != 0 {
+        v.yp = t.value();
+    }
+    if fmt & 4 != 0 {
+        v.xa = t.value();
+    }
+    if fmt & 8 != 0 && t.chance(25) {
+        v.ya = t.value();
+    }
+    if t.chance(10) {
+        v = Value::default();
+    }
+    v
+}
+
+fn gen_anchor(t: &mut Tape) -> AnchorM {
+    AnchorM { x: t.coord(), y: t.coord(), fmt: 1 + t.below(3) as u8, point: t.below(40) as u16 }
+}
+
+fn gen_flags(t: &mut Tape, u: &Universe, gdef: Option<&GdefModel>, ltype: u16) -> Flags {
+    let mut f = Flags::default();
+    let gdef = match gdef {
+        Some(g) => g,
+        None => return f,
+    };
+    let marky = matches!(ltype, 4 | 5 | 6);
+    if !t.chance(if marky { 25 } else { 45 }) {
+        return f;
+    }
+    let nsets = gdef.mark_sets.len();
+    if marky {
+        match t.weighted(&[45, if nsets > 0 { 45 } else { 0 }, 10]) {
+            0 => f.mark_attach_type = 1 + t.below(2) as u8,
+            1 => f.mark_filter_set = Some(t.below(nsets) as u16),
+            _ => f.ignore_marks = true,
+        }
+        return f;
+    }
+    f.ignore_base = t.chance(12);
+    f.ignore_lig = t.chance(20);
+    match t.weighted(&[25, 35, 20, if nsets > 0 { 20 } else { 0 }]) {
+        0 => {}
+        1 => f.ignore_marks = true,
+        2 => f.mark_attach_type = 1 + t.below(2) as u8,
+        _ => f.mark_filter_set = Some(t.below(nsets) as u16),
+    }
+    if ltype == 3 {
+        f.rtl = t.chance(65);
+        f.ignore_base = false;
+    }
+    let _ = u;
+    f
+}
+
+/// glyphs of `s` not skipped under `f`, as indices into `s`
+fn unskipped(gdef: Option<&GdefModel>, f: &Flags, s: &[Gid]) -> Vec<usize> {
+    (0..s.len()).filter(|i| refm::skip_reason(gdef, f, s[*i], 0).is_none()).collect()
+}
+
+struct Gen<'t, 'a> {
+    t: &'t mut Tape<'a>,
+    u: Universe,
+    gdef: Option<GdefModel>,
+    seed: Vec<Gid>,
+    lookups: Vec<Lookup>,
+    /// lookups only reachable through sequence-lookup records
+    nested_only: Vec<bool>,
+}
+
+impl<'t, 'a> Gen<'t, 'a> {
+    fn pool_any(&self) -> Vec<Gid> {
+        self.u.all.clone()
+    }
+
+    fn gen_single(&mut self, pool: &[Gid]) -> Subtable {
+        let t = &mut *self.t;
+        let cov = gen_cov(t, pool, 40);
+        let fmt = gen_value_format(t, t.pos % 7 == 0);
+        if t.chance(50) {
+            let value = gen_value(t, fmt);
+            Subtable::Single1 { cov, fmt, value }
+        } else {
+            let values = (0..cov.len()).map(|_| gen_value(t, fmt)).collect();
+            Subtable::Single2 { cov, fmt, values }
+        }
+    }
+
+    fn gen_pair(&mut self, pool: &[Gid], flags: &Flags) -> Subtable {
+        let gdef = self.gdef.clone();
+        let t = &mut *self.t;
+        let fmt1 = gen_value_format(t, true);
+        let fmt2 = if t.chance(45) { gen_value_format(t, false) } else { 0 };
+        // successor pairs of the seed string under the lookup flags make likely hits
+        let vis = unskipped(gdef.as_ref(), flags, &self.seed);
+        let succ: Vec<(Gid, Gid)> = vis.windows(2).map(|w| (self.seed[w[0]], self.seed[w[1]])).collect();
+        if t.chance(50) {
+            let firsts: Vec<Gid> = succ.iter().map(|p| p.0).filter(|_| t.chance(60)).collect();
+            let cov = gen_cov_with(t, pool, 20, &firsts);
+            let mut sets = Vec::new();
+            for g1 in &cov.glyphs {
+                let mut seconds: Vec<Gid> = succ.iter().filter(|p| p.0 == *g1 && t.chance(75)).map(|p| p.1).collect();
+                for _ in 0..t.below(3) {
+                    seconds.push(pool[t.below(pool.len())]);
+                }
+                seconds.sort_unstable();
+                seconds.dedup();
+                let set: Vec<(Gid, Value, Value)> = seconds.into_iter().map(|g2| (g2, gen_value(t, fmt1), gen_value(t, fmt2))).collect();
+                sets.push(set);
+            }
+            Subtable::Pair1 { cov, fmt1, fmt2, sets }
+        } else {
+            let cov = gen_cov(t, pool, 50);
+            let c1 = 1 + t.below(3);
+            let c2 = 1 + t.below(3);
+            let cd1 = gen_classdef(t, &self.u.all, c1);
+            let cd2 = gen_classdef(t, &self.u.all, c2);
+            let matrix = (0..c1)
+                .map(|_| {
+                    (0..c2)
+                        .map(|_| if t.chance(25) { (Value::default(), Value::default()) } else { (gen_value(t, fmt1), gen_value(t, fmt2)) })
+                        .collect()
+                })
+                .collect();
+            Subtable::Pair2 { cov, fmt1, fmt2, cd1, cd2, matrix }
+        }
+    }
+
+    fn gen_cursive(&mut self) -> Subtable {
+        let t = &mut *self.t;
+        let cov = gen_cov(t, &self.u.nonmarks, 60);
+        // fonts commonly put the entry anchor at x = 0 (that is also where allsorts' pen model
+        // for cursive links agrees with the specification)
+        let entry_x0 = t.chance(45);
+        let recs = (0..cov.len())
+            .map(|_| {
+                let entry = if t.chance(80) {
+                    let mut a = gen_anchor(t);
+                    if entry_x0 {
+                        a.x = 0;
+                    }
+                    Some(a)
+                } else {
+                    None
+                };
+                (entry, if t.chance(80) { Some(gen_anchor(t)) } else { None })
+            })
+            .collect();
+        Subtable::Cursive { cov, recs }
+    }
+
+    fn gen_marks(t: &mut Tape, cov: &Cov, class_count: u16) -> Vec<(u16, AnchorM)> {
+        (0..cov.len()).map(|_| (t.below(class_count as usize) as u16, gen_anchor(t))).collect()
+    }
+
+    fn gen_anchor_row(t: &mut Tape, class_count: u16) -> Vec<Option<AnchorM>> {
+        (0..class_count).map(|_| if t.chance(85) { Some(gen_anchor(t)) } else { None }).collect()
+    }
+
+    fn gen_mark_base(&mut self) -> Subtable {
+        let t = &mut *self.t;
+        let mark_cov = gen_cov(t, &self.u.marks, 65);
+        let base_cov = gen_cov(t, &self.u.nonmarks, 60);
+        let class_count = 1 + t.below(3) as u16;
+        let marks = Self::gen_marks(t, &mark_cov, class_count);
+        let bases = (0..base_cov.len()).map(|_| Self::gen_anchor_row(t, class_count)).collect();
+        Subtable::MarkBase { mark_cov, base_cov, class_count, marks, bases }
+    }
+
+    fn gen_mark_lig(&mut self) -> Subtable {
+        let t = &mut *self.t;
+        let mark_cov = gen_cov(t, &self.u.marks, 65);
+        let pool = if self.u.ligs.is_empty() || t.chance(15) { self.u.nonmarks.clone() } else { self.u.ligs.clone() };
+        let lig_cov = gen_cov(t, &pool, 75);
+        let class_count = 1 + t.below(3) as u16;
+        let marks = Self::gen_marks(t, &mark_cov, class_count);
+        let ligs = (0..lig_cov.len())
+            .map(|_| {
+                let ncomp = 1 + t.below(3);
+                (0..ncomp).map(|_| Self::gen_anchor_row(t, class_count)).collect()
+            })
+            .collect();
+        Subtable::MarkLig { mark_cov, lig_cov, class_count, marks, ligs }
+    }
+
+    fn gen_mark_mark(&mut self) -> Subtable {
+        let t = &mut *self.t;
+        let mark1_cov = gen_cov(t, &self.u.marks, 65);
+        let mark2_cov = gen_cov(t, &self.u.marks, 65);
+        let class_count = 1 + t.below(3) as u16;
+        let marks = Self::gen_marks(t, &mark1_cov, class_count);
+        let mark2s = (0..mark2_cov.len()).map(|_| Self::gen_anchor_row(t, class_count)).collect();
+        Subtable::MarkMark { mark1_cov, mark2_cov, class_count, marks, mark2s }
+    }
+
+    /// a nested lookup (type 1 or 2) appended to the list; returns its index
+    fn gen_nested(&mut self, parent_flags: &Flags) -> u16 {
+        // sometimes reuse an existing type 1/2 lookup
+        let candidates: Vec<usize> = self.lookups.iter().enumerate().filter(|(_, l)| l.ltype <= 2).map(|(i, _)| i).collect();
+        if !candidates.is_empty() && self.t.chance(25) {
+            return candidates[self.t.below(candidates.len())] as u16;
+        }
+        let ltype = if self.t.chance(35) { 2 } else { 1 };
+        let flags = if self.t.chance(65) {
+            *parent_flags
+        } else {
+            let g = self.gdef.clone();
+            gen_flags(self.t, &self.u, g.as_ref(), ltype)
+        };
+        let pool = self.pool_any();
+        let st = if ltype == 1 { self.gen_single(&pool) } else { self.gen_pair(&pool, &flags) };
+        let l = Lookup { ltype, flags, subtables: vec![st], extension: self.t.chance(15), share: self.t.chance(50) };
+        self.lookups.push(l);
+        self.nested_only.push(true);
+        (self.lookups.len() - 1) as u16
+    }
+
+    fn gen_records(&mut self, input_len: usize, flags: &Flags) -> Vec<SeqLookup> {
+        let n = 1 + self.t.below(2);
+        let mut v = Vec::new();
+        for _ in 0..n {
+            let seq = self.t.below(input_len) as u16;
+            let li = self.gen_nested(flags);
+            v.push((seq, li));
+        }
+        v
+    }
+
+    fn gen_context(&mut self, chained: bool, flags: &Flags) -> Subtable {
+        let gdef = self.gdef.clone();
+        let vis = unskipped(gdef.as_ref(), flags, &self.seed);
+        let seed = self.seed.clone();
+        let all = self.u.all.clone();
+        // choose a window of the seed string (in unskipped glyphs)
+        let (back_n, input_n, look_n) = if vis.is_empty() {
+            (0, 1, 0)
+        } else {
+            let input_n = 1 + self.t.below(3.min(vis.len()));
+            let back_n = if chained { self.t.below(3) } else { 0 };
+            let look_n = if chained { self.t.below(3) } else { 0 };
+            (back_n, input_n, look_n)
+        };
+        let total = back_n + input_n + look_n;
+        let window: Vec<Gid> = if vis.len() >= total && total > 0 {
+            let start = self.t.below(vis.len() - total + 1);
+            vis[start..start + total].iter().map(|i| seed[*i]).collect()
+        } else {
+            (0..total).map(|_| all[self.t.below(all.len())]).collect()
+        };
+        let back: Vec<Gid> = window[..back_n].iter().rev().copied().collect();
+        let input: Vec<Gid> = window[back_n..back_n + input_n].to_vec();
+        let look: Vec<Gid> = window[back_n + input_n..].to_vec();
+        let records = self.gen_records(input_n, flags);
+        let fmt = 1 + self.t.below(3);
+        // a decoy rule that is tried first and (usually) fails
+        let decoy = self.t.chance(30);
+        let mut decoy_rule = |me: &mut Self, conv: &dyn Fn(Gid) -> u16| -> Rule {
+            let mut inp: Vec<u16> = input[1..].iter().map(|g| conv(*g)).collect();
+            inp.push(conv(all[me.t.below(all.len())]));
+            let recs = me.gen_records(inp.len() + 1, flags);
+            Rule { back: vec![], input: inp, look: vec![], records: recs }
+        };
+        match fmt {
+            1 => {
+                let cov = gen_cov_with(self.t, &all, 15, &[input[0]]);
+                let mut rulesets: Vec<Option<Vec<Rule>>> = Vec::new();
+                for g in cov.glyphs.clone() {
+                    if g == input[0] {
+                        let mut rules = Vec::new();
+                        if decoy {
+                            rules.push(decoy_rule(self, &|g| g));
+                        }
+                        rules.push(Rule { back: back.clone(), input: input[1..].to_vec(), look: look.clone(), records: records.clone() });
+                        rulesets.push(Some(rules));
+                    } else if self.t.chance(40) {
+                        let recs = self.gen_records(1, flags);
+                        rulesets.push(Some(vec![Rule { back: vec![], input: vec![], look: vec![], records: recs }]));
+                    } else {
+                        rulesets.push(None);
+                    }
+                }
+                if chained {
+                    Subtable::Chain1 { cov, rulesets }
+                } else {
+                    Subtable::Context1 { cov, rulesets }
+                }
+            }
+            2 => {
+                let ncl = 2 + self.t.below(2);
+                let icd = gen_classdef(self.t, &all, ncl);
+                let (bcd, lcd) = if chained && self.t.chance(50) {
+                    (gen_classdef(self.t, &all, ncl), gen_classdef(self.t, &all, ncl))
+                } else {
+                    (icd.clone(), icd.clone())
+                };
+                let cov = gen_cov_with(self.t, &all, 30, &[input[0]]);
+                let first_class = icd.class(input[0]) as usize;
+                let mut sets: Vec<Option<Vec<Rule>>> = Vec::new();
+                for c in 0..ncl {
+                    if c == first_class {
+                        let mut rules = Vec::new();
+                        if decoy {
+                            let icd2 = icd.clone();
+                            rules.push(decoy_rule(self, &move |g| icd2.class(g)));
+                        }
+                        rules.push(Rule {
+                            back: back.iter().map(|g| bcd.class(*g)).collect(),
+                            input: input[1..].iter().map(|g| icd.class(*g)).collect(),
+                            look: look.iter().map(|g| lcd.class(*g)).collect(),
+                            records: records.clone(),
+                        });
+                        sets.push(Some(rules));
+                    } else if self.t.chance(30) {
+                        let recs = self.gen_records(1, flags);
+                        sets.push(Some(vec![Rule { back: vec![], input: vec![], look: vec![], records: recs }]));
+                    } else {
+                        sets.push(None);
+                    }
+                }
+                if chained {
+                    Subtable::Chain2 { cov, bcd, icd, lcd, sets }
+                } else {
+                    Subtable::Context2 { cov, cd: icd, sets }
+                }
+            }
+            _ => {
+                let mk = |me: &mut Self, g: Gid| gen_cov_with(me.t, &all, 20, &[g]);
+                let input_c: Vec<Cov> = input.iter().map(|g| mk(self, *g)).collect();
+                if chained {
+                    let back_c: Vec<Cov> = back.iter().map(|g| mk(self, *g)).collect();
+                    let look_c: Vec<Cov> = look.iter().map(|g| mk(self, *g)).collect();
+                    Subtable::Chain3 { back: back_c, input: input_c, look: look_c, records }
+                } else {
+                    Subtable::Context3 { covs: input_c, records }
+                }
+            }
+        }
+    }
+
+    fn gen_lookup(&mut self) {
+        let has_marks = !self.u.marks.is_empty() && !self.u.nonmarks.is_empty() && self.gdef.is_some();
+        let w_mark = if has_marks { 1 } else { 0 };
+        let ltype = [1u16, 2, 3, 4, 5, 6, 7, 8][self.t.weighted(&[16, 22, 8 * (!self.u.nonmarks.is_empty() as u32), 14 * w_mark, 9 * w_mark, 11 * w_mark, 10, 10])];
+        let g = self.gdef.clone();
+        let mut flags = gen_flags(self.t, &self.u, g.as_ref(), ltype);
+        if ltype == 3 {
+            // real cursive lookups ignore marks and mostly set RIGHT_TO_LEFT
+            if self.t.chance(50) {
+                flags = Flags { ignore_marks: g.is_some(), ..Flags::default() };
+            }
+            flags.rtl = self.t.chance(65);
+        }
+        let nsub = 1 + self.t.weighted(&[65, 25, 10]);
+        let pool = self.pool_any();
+        let mut subtables = Vec::new();
+        for _ in 0..nsub {
+            let st = match ltype {
+                1 => self.gen_single(&pool),
+                2 => self.gen_pair(&pool, &flags),
+                3 => self.gen_cursive(),
+                4 => self.gen_mark_base(),
+                5 => self.gen_mark_lig(),
+                6 => self.gen_mark_mark(),
+                7 => self.gen_context(false, &flags),
+                _ => self.gen_context(true, &flags),
+            };
+            subtables.push(st);
+        }
+        // nested lookups were appended while generating; insert this lookup *before* them so
+        // that parents can precede or follow their nested lookups
+        let l = Lookup { ltype, flags, subtables, extension: self.t.chance(15), share: self.t.chance(50) };
+        self.lookups.push(l);
+        self.nested_only.push(false);
+    }
+}
+
+fn gen_kern(t: &mut Tape, u: &Universe, seed: &[Gid]) -> KernModel {
+    let nsub = 1 + t.weighted(&[70, 22, 8]);
+    let mut subs = Vec::new();
+    let succ: Vec<(Gid, Gid)> = seed.windows(2).map(|w| (w[0], w[1])).collect();
+    for si in 0..nsub {
+        let last = si + 1 == nsub;
+        let mut coverage = KERN_HORIZONTAL;
+        if t.chance(8) {
+            coverage = 0; // vertical
+        }
+        if t.chance(6) {
+            coverage |= KERN_CROSS_STREAM;
+        }
+        if t.chance(6) {
+            coverage |= KERN_MINIMUM;
+        }
+        // format 2 only as the last subtable (see the rule text)
+        if last && t.chance(35) {
+            let nl = 2 + t.below(2);
+            let nr = 2 + t.below(2);
+            let n = u.all.len();
+            let lf = t.below(n.min(4)) as u16 + 1;
+            let ll = 1 + t.below(n - lf as usize + 1);
+            let rf = t.below(n.min(4)) as u16 + 1;
+            let rl = 1 + t.below(n - rf as usize + 1);
+            let left = (0..ll).map(|_| t.below(nl) as u16).collect();
+            let right = (0..rl).map(|_| t.below(nr) as u16).collect();
+            let matrix = (0..nl).map(|r| (0..nr).map(|c| if r == 0 || c == 0 { 0 } else { t.value() }).collect()).collect();
+            subs.push(KernSub { coverage, data: KernData::F2 { left_first: lf, left, right_first: rf, right, matrix, layout: t.below(3) as u8 } });
+        } else {
+            if t.chance(12) {
+                coverage |= KERN_OVERRIDE;
+            }
+            let mut pairs: BTreeMap<(Gid, Gid), i16> = BTreeMap::new();
+            for p in &succ {
+                if t.chance(55) {
+                    pairs.insert(*p, t.value());
+                }
+            }
+            for _ in 0..t.below(6) {
+                let l = u.all[t.below(u.all.len())];
+                let r = u.all[t.below(u.all.len())];
+                pairs.insert((l, r), t.value());
+            }
+            subs.push(KernSub { coverage, data: KernData::F0(pairs.into_iter().map(|((l, r), v)| (l, r, v)).collect()) });
+        }
+    }
+    KernModel { subs, trailing: if t.chance(30) { (t.below(40) * 2) as u16 } else { 0 } }
+}
+
+pub fn build_program(tape: &[u32]) -> Program {
+    let mut tape = Tape { v: tape, pos: 0 };
+    let t = &mut tape;
+    let n = 5 + t.below(14) as u16; // glyph ids 1..=n
+    let with_gdef = !t.chance(8);
+    let mut classes = vec![0u16; n as usize + 1];
+    let mut attach = BTreeMap::new();
+    for g in 1..=n {
+        classes[g as usize] = if with_gdef { [1u16, 3, 2, 0, 4][t.weighted(&[42, 33, 12, 8, 5])] } else { 0 };
+        if classes[g as usize] == 3 {
+            let a = t.below(3) as u16;
+            if a != 0 {
+                attach.insert(g, a);
+            }
+        }
+    }
+    let all: Vec<Gid> = (1..=n).collect();
+    let marks: Vec<Gid> = all.iter().copied().filter(|g| classes[*g as usize] == 3).collect();
+    let nonmarks: Vec<Gid> = all.iter().copied().filter(|g| classes[*g as usize] != 3).collect();
+    let ligs: Vec<Gid> = all.iter().copied().filter(|g| classes[*g as usize] == 2).collect();
+    let gdef = if with_gdef {
+        let nsets = if marks.is_empty() { 0 } else { t.weighted(&[40, 35, 25]) };
+        let mark_sets: Vec<Cov> = (0..nsets).map(|_| gen_cov(t, &marks, 50)).collect();
+        let map: BTreeMap<Gid, u16> = all.iter().filter(|g| classes[**g as usize] != 0).map(|g| (*g, classes[*g as usize])).collect();
+        Some(GdefModel {
+            glyph_classes: Some(ClassDefM { map, fmt: 1 + t.below(3) as u8 }),
+            mark_attach: if attach.is_empty() && t.chance(50) { None } else { Some(ClassDefM { map: attach, fmt: 1 + t.below(3) as u8 }) },
+            minor: if mark_sets.is_empty() { [0u16, 0, 2, 3][t.below(4)] } else { [2u16, 3][t.below(2)] },
+            mark_sets,
+        })
+    } else {
+        None
+    };
+    let u = Universe { all: all.clone(), classes: classes.clone(), marks, nonmarks, ligs };
+
+    // seed string: bases followed by a few marks are common
+    let seed_len = 3 + t.below(8);
+    let mut seed: Vec<Gid> = Vec::new();
+    while seed.len() < seed_len {
+        if !u.marks.is_empty() && !seed.is_empty() && t.chance(40) {
+            seed.push(u.marks[t.below(u.marks.len())]);
+        } else if !u.nonmarks.is_empty() {
+            seed.push(u.nonmarks[t.below(u.nonmarks.len())]);
+        } else {
+            seed.push(all[t.below(all.len())]);
+        }
+    }
+
+    let shape = t.weighted(&[70, 12, 18]); // GPOS only / kern only / both
+    let with_gpos = shape != 1;
+    let with_kern = shape != 0;
+
+    let mut gpos = None;
+    let mut custom: Vec<[u8; 4]> = Vec::new();
+    let mut lang = None;
+    if with_gpos {
+        let mut g = Gen { t, u, gdef: gdef.clone(), seed: seed.clone(), lookups: Vec::new(), nested_only: Vec::new() };
+        let nl = 1 + g.t.weighted(&[30, 30, 20, 12, 8]);
+        for _ in 0..nl {
+            g.gen_lookup();
+        }
+        let lookups = g.lookups;
+        let nested_only = g.nested_only;
+        let u2 = g.u;
+        let t = g.t;
+        // features: consecutive chunks of the feature lookups in index order
+        let order: [[u8; 4]; 6] = [*b"dist", *b"kern", *b"mark", *b"mkmk", *b"test", *b"ss01"];
+        let feature_lookups: Vec<u16> = (0..lookups.len()).filter(|i| !nested_only[*i]).map(|i| i as u16).collect();
+        let mut used: Vec<[u8; 4]> = order.iter().copied().filter(|tag| t.chance(if tag == b"kern" && with_kern { 35 } else { 60 })).collect();
+        if used.is_empty() {
+            used.push(order[t.below(6)]);
+        }
+        let mut features: Vec<Feature> = used.iter().map(|tag| Feature { tag: *tag, lookups: vec![] }).collect();
+        let nf = features.len();
+        // non-decreasing assignment
+        let mut fi = 0usize;
+        for (k, li) in feature_lookups.iter().enumerate() {
+            let remaining_l = feature_lookups.len() - k;
+            while fi + 1 < nf && t.chance((100 * (nf - fi - 1) / (remaining_l + nf - fi - 1).max(1)) as u32) {
+                fi += 1;
+            }
+            features[fi].lookups.push(*li);
+        }
+        for f in features.iter_mut() {
+            if f.lookups.len() > 1 && t.chance(40) {
+                f.lookups.reverse();
+            }
+            if !f.lookups.is_empty() && t.chance(15) {
+                let d = f.lookups[0];
+                f.lookups.push(d);
+            }
+        }
+        custom = used.iter().copied().filter(|tag| tag == b"test" || tag == b"ss01").collect();
+        // feature list order: shuffled by rotating
+        let rot = t.below(nf);
+        features.rotate_left(rot);
+        let all_idx: Vec<u16> = (0..nf as u16).collect();
+        let scripts = match t.weighted(&[30, 30, 20, 20]) {
+            0 => vec![ScriptM { tag: *b"DFLT", default: Some(all_idx.clone()), langsys: vec![] }],
+            1 => vec![ScriptM { tag: *b"latn", default: Some(all_idx.clone()), langsys: vec![] }],
+            2 => vec![
+                ScriptM { tag: *b"DFLT", default: Some(vec![]), langsys: vec![] },
+                ScriptM { tag: *b"latn", default: Some(all_idx.clone()), langsys: vec![] },
+            ],
+            _ => {
+                lang = Some(*b"ENG ");
+                vec![
+                    ScriptM { tag: *b"latn", default: Some(vec![]), langsys: vec![(*b"ENG ", all_idx.clone()), (*b"DEU ", vec![])] },
+                    ScriptM { tag: *b"grek", default: Some(all_idx.clone()), langsys: vec![] },
+                ]
+            }
+        };
+        let minor = if t.chance(25) { 1 } else { 0 };
+        gpos = Some(GposModel { lookups, features, scripts, minor });
+        return finish_program(t, n, u2, gdef, gpos, with_kern, seed, custom, lang);
+    }
+    // without GPOS allsorts applies its own fallback mark handling driven by GDEF classes,
+    // which is policy rather than GPOS/kern semantics: kern-only fonts carry no GDEF
+    finish_program(t, n, u, None, gpos, with_kern, seed, custom, lang)
+}
+
+fn finish_program(
+    t: &mut Tape,
+    n: u16,
+    u: Universe,
+    gdef: Option<GdefModel>,
+    gpos: Option<GposModel>,
+    with_kern: bool,
+    seed: Vec<Gid>,
+    custom: Vec<[u8; 4]>,
+    lang: Option<[u8; 4]>,
+) -> Program {
+    let kern = if with_kern { Some(gen_kern(t, &u, &seed)) } else { None };
+    let zero_advance_marks = t.chance(50);
+    let mut advances = vec![600u16];
+    for g in 1..=n {
+        let mark = u.classes[g as usize] == 3;
+        advances.push(if mark {
+            if zero_advance_marks || t.chance(40) {
+                0
+            } else {
+                1 + t.below(400) as u16
+            }
+        } else {
+            100 + t.below(1100) as u16
+        });
+    }
+    // strings: the seed, mutations of it, random ones
+    let nstr = 4;
+    let mut strings: Vec<Vec<Gid>> = vec![seed.clone()];
+    while strings.len() < nstr {
+        let mut s = seed.clone();
+        match t.weighted(&[50, 30, 20]) {
+            0 => {
+                for _ in 0..1 + t.below(3) {
+                    match t.below(4) {
+                        0 if !s.is_empty() => {
+                            let i = t.below(s.len());
+                            s.remove(i);
+                        }
+                        1 if s.len() < 12 => {
+                            let i = t.below(s.len() + 1);
+                            s.insert(i, u.all[t.below(u.all.len())]);
+                        }
+                        2 if s.len() > 1 => {
+                            let i = t.below(s.len() - 1);
+                            s.swap(i, i + 1);
+                        }
+                        _ if !s.is_empty() => {
+                            let i = t.below(s.len());
+                            s[i] = u.all[t.below(u.all.len())];
+                        }
+                        _ => {}
+                    }
+                }
+            }
+            1 => {
+                let len = t.below(13);
+                s = (0..len).map(|_| u.all[t.below(u.all.len())]).collect();
+            }
+            _ => {
+                // base + several marks clusters
+                s.clear();
+                let len = 2 + t.below(9);
+                while s.len() < len {
+                    if !u.marks.is_empty() && !s.is_empty() && t.chance(60) {
+                        s.push(u.marks[t.below(u.marks.len())]);
+                    } else {
+                        let pool = if !u.ligs.is_empty() && t.chance(35) {
+                            &u.ligs
+                        } else if u.nonmarks.is_empty() {
+                            &u.all
+                        } else {
+                            &u.nonmarks
+                        };
+                        s.push(pool[t.below(pool.len())]);
+                    }
+                }
+            }
+        }
+        strings.push(s);
+    }
+    let strings: Vec<Vec<GlyphIn>> = strings
+        .into_iter()
+        .map(|s| {
+            let mut v: Vec<GlyphIn> = Vec::new();
+            let mut after_lig = false;
+            for g in s {
+                let class = u.classes[g as usize];
+                let mut comp = 0;
+                let mut lig = false;
+                if class == 3 {
+                    if after_lig && t.chance(60) {
+                        comp = t.below(3) as u16;
+                    }
+                    lig = t.chance(2);
+                } else {
+                    after_lig = class == 2;
+                    lig = class == 2 && t.chance(50);
+                }
+                v.push(GlyphIn { gid: g, comp, lig });
+            }
+            v
+        })
+        .collect();
+    let kerning = (0..strings.len()).map(|i| i == 0 || !t.chance(25)).collect();
+    Program { nglyphs: n + 1, gdef, gpos, kern, advances, strings, custom, lang, kerning, zero_advance_marks }
+}
+
+// ---------------------------------------------------------------------------------------------
+// running allsorts
+
+struct Built {
+    font: Vec<u8>,
+    gpos: Option<Vec<u8>>,
+    gdef: Option<Vec<u8>>,
+    kern: Option<Vec<u8>>,
+    kern_layouts: Vec<Option<Kern2Layout>>,
+}
+
+fn build(p: &Program) -> Result<Built, TooBig> {
+    let mut f = BasicFont::with_glyphs(p.nglyphs);
+    for g in 0..p.nglyphs {
+        f.metrics[g as usize] = (p.advances[g as usize], 0);
+        f.cmap.insert(0xE000 + g as u32, g);
+    }
+    // a shorter hmtx long-metrics run when the tail shares one advance
+    let mut nh = p.nglyphs;
+    while nh > 1 && p.advances[nh as usize - 1] == p.advances[nh as usize - 2] {
+        nh -= 1;
+    }
+    f.num_h_metrics = nh;
+    let gpos = match &p.gpos {
+        Some(g) => Some(encode_gpos(g)?),
+        None => None,
+    };
+    let gdef = match &p.gdef {
+        Some(g) => Some(encode_gdef(g)?),
+        None => None,
+    };
+    let (kern, kern_layouts) = match &p.kern {
+        Some(k) => {
+            let (b, l) = encode_kern(k);
+            (Some(b), l)
+        }
+        None => (None, vec![]),
+    };
+    if let Some(t) = &gpos {
+        f.extra.push((*b"GPOS", t.clone()));
+    }
+    if let Some(t) = &gdef {
+        f.extra.push((*b"GDEF", t.clone()));
+    }
+    if let Some(t) = &kern {
+        f.extra.push((*b"kern", t.clone()));
+    }
+    Ok(Built { font: f.build(), gpos, gdef, kern, kern_layouts })
+}
+
+fn raw_glyphs(s: &[GlyphIn]) -> Vec<RawGlyph<()>> {
+    s.iter()
+        .map(|g| {
+            let ch = char::from_u32(0xE000 + g.gid as u32).unwrap();
+            let mut unicodes = tinyvec::TinyVec::<[char; 1]>::new();
+            unicodes.push(ch);
+            RawGlyph {
+                unicodes,
+                glyph_index: g.gid,
+                liga_component_pos: g.comp,
+                glyph_origin: GlyphOrigin::Char(ch),
+                flags: if g.lig { RawGlyphFlags::LIGATURE } else { RawGlyphFlags::empty() },
+                variation: None,
+                extra_data: (),
+            }
+        })
+        .collect()
+}
+
+fn tag_u32(t: &[u8; 4]) -> u32 {
+    u32::from_be_bytes(*t)
+}
+
+/// level 1: Info.kerning / Info.placement against the reference adjustments
+fn diff_infos(infos: &[Info], s: &[GlyphIn], exp: &[GlyphOut]) -> Option<String> {
+    if infos.len() != s.len() {
+        return Some(format!("{} infos for {} glyphs", infos.len(), s.len()));
+    }
+    for (i, info) in infos.iter().enumerate() {
+        let e = &exp[i];
+        if info.glyph.glyph_index != s[i].gid {
+            return Some(format!("glyph {}: id {} became {}", i, s[i].gid, info.glyph.glyph_index));
+        }
+        if info.kerning as i32 != e.adv {
+            return Some(format!("glyph {} (gid {}): kerning {} expected {}", i, s[i].gid, info.kerning, e.adv));
+        }
+        let ok = match (&info.placement, &e.attach) {
+            (Placement::None, Attach::None) => e.dx == 0 && e.dy == 0,
+            (Placement::Distance(dx, dy), Attach::None) => *dx == e.dx && *dy == e.dy,
+            (Placement::MarkAnchor(b, ba, ma), Attach::Mark { base, ba: eba, ma: ema, post }) => {
+                b == base
+                    && (ma.x, ma.y) == *ema
+                    && ba.x as i32 == eba.0 as i32 + post.0
+                    && ba.y as i32 == eba.1 as i32 + post.1
+            }
+            (Placement::CursiveAnchor(next, rtl, entry_of_next, exit_of_this), Attach::Cursive { next: en, rtl: er, exit, entry }) => {
+                next == en && rtl == er && (entry_of_next.x, entry_of_next.y) == *entry && (exit_of_this.x, exit_of_this.y) == *exit
+            }
+            _ => false,
+        };
+        if !ok {
+            return Some(format!("glyph {} (gid {}): placement {:?} expected {:?}", i, s[i].gid, info.placement, e));
+        }
+    }
+    None
+}
+
+struct Observed {
+    infos: Vec<Info>,
+    shape_err: Option<String>,
+    ltr: Result<Vec<(i32, i32, i32, i32)>, String>,
+    rtl: Result<Vec<(i32, i32, i32, i32)>, String>,
+}
+
+fn fail(sig: &str, msg: String) -> Fail {
+    Fail::new(format!("C05:{}", sig), msg)
+}
+
+fn observe(font_bytes: &[u8], s: &[GlyphIn], custom: &[[u8; 4]], lang: Option<[u8; 4]>, kerning: bool) -> Result<Observed, Fail> {
+    let fd = ReadScope::new(font_bytes).read::<FontData<'_>>().map_err(|e| fail("font-read", format!("{:?}", e)))?;
+    let prov = fd.table_provider(0).map_err(|e| fail("font-read", format!("{:?}", e)))?;
+    let mut font = Font::new(prov).map_err(|e| fail("font-read", format!("Font::new: {:?}", e)))?;
+    let features = Features::Custom(custom.iter().map(|t| FeatureInfo { feature_tag: tag_u32(t), alternate: None }).collect());
+    let (infos, shape_err) = match font.shape(raw_glyphs(s), tag_u32(b"latn"), lang.map(|l| tag_u32(&l)), &features, None, kerning) {
+        Ok(i) => (i, None),
+        Err((e, i)) => (i, Some(format!("{:?}", e))),
+    };
+    let mut pos = |dir: TextDirection| -> Result<Vec<(i32, i32, i32, i32)>, String> {
+        let mut layout = GlyphLayout::new(&mut font, &infos, dir, false);
+        layout
+            .glyph_positions()
+            .map(|v| v.iter().map(|p| (p.hori_advance, p.vert_advance, p.x_offset, p.y_offset)).collect())
+            .map_err(|e| format!("{:?}", e))
+    };
+    let ltr = pos(TextDirection::LeftToRight);
+    let rtl = pos(TextDirection::RightToLeft);
+    Ok(Observed { infos, shape_err, ltr, rtl })
+}
+
+/// direct entry point: tables parsed individually, explicit feature list
+fn observe_direct(b: &Built, s: &[GlyphIn], tags: &[[u8; 4]], lang: Option<[u8; 4]>) -> Result<Option<Vec<Info>>, Fail> {
+    let gpos_bytes = match &b.gpos {
+        Some(g) => g,
+        None => return Ok(None),
+    };
+    let table = ReadScope::new(gpos_bytes).read::<LayoutTable<GPOS>>().map_err(|e| fail("gpos-parse", format!("{:?}", e)))?;
+    let gdef = match &b.gdef {
+        Some(g) => Some(ReadScope::new(g).read::<GDEFTable>().map_err(|e| fail("gdef-parse", format!("{:?}", e)))?),
+        None => None,
+    };
+    let kern = match &b.kern {
+        Some(k) => match ReadScope::new(k).read::<KernTable<'_>>() {
+            Ok(k) => Some(k),
+            Err(_) => return Ok(None), // judged through Font::shape
+        },
+        None => None,
+    };
+    let cache = new_layout_cache(table);
+    let script = match cache.layout_table.find_script_or_default(tag_u32(b"latn")).map_err(|e| fail("gpos-parse", format!("{:?}", e)))? {
+        Some(s) => s,
+        None => return Ok(None),
+    };
+    let langsys = match script.find_langsys_or_default(lang.map(|l| tag_u32(&l))).map_err(|e| fail("gpos-parse", format!("{:?}", e)))? {
+        Some(l) => l,
+        None => return Ok(None),
+    };
+    let mut infos = Info::init_from_glyphs(gdef.as_ref(), raw_glyphs(s));
+    gpos::apply_features(
+        &cache,
+        &cache.layout_table,
+        gdef.as_ref(),
+        kern,
+        langsys,
+        tags.iter().map(|t| FeatureInfo { feature_tag: tag_u32(t), alternate: None }),
+        None,
+        &mut infos,
+    )
+    .map_err(|e| fail("apply-error", format!("gpos::apply_features: {:?}", e)))?;
+    Ok(Some(infos))
+}
+
+struct RefCtx<'a> {
+    p: &'a Program,
+    b: &'a Built,
+}
+
+impl<'a> RefCtx<'a> {
+    fn run(&self, s: &[GlyphIn], steps: &[Step], devs: u32) -> RunResult {
+        let kern = match (&self.p.kern, &self.b.kern) {
+            (Some(m), Some(bytes)) => Some((m, KernBytes { bytes, layouts: &self.b.kern_layouts })),
+            _ => None,
+        };
+        Interp::new(self.p.gdef.as_ref(), self.p.gpos.as_ref(), kern, devs, s).run(steps)
+    }
+}
+
+/// Compare everything observed through Font::shape with one reference result. None = equal.
+fn diff_all(p: &Program, s: &[GlyphIn], obs: &Observed, exp: &RunResult, devs: u32, expect_kern_error: bool, rec_classes: &mut Vec<String>) -> Option<(String, String)> {
+    match (&obs.shape_err, expect_kern_error) {
+        (Some(e), false) => return Some(("shape-error".into(), format!("Font::shape returned Err({})", e))),
+        (None, true) => return Some(("shape-error".into(), "Font::shape succeeded although the kern table is unreadable under the defect model".into())),
+        _ => {}
+    }
+    if let Some(d) = diff_infos(&obs.infos, s, &exp.out) {
+        return Some(("info-mismatch".into(), d));
+    }
+    let font_adv: Vec<i32> = s.iter().map(|g| p.advances[g.gid as usize] as i32).collect();
+    // LTR absolute positions
+    let ltr = match &obs.ltr {
+        Ok(v) => v,
+        Err(e) => return Some(("positions-error".into(), format!("glyph_positions(LTR) failed: {}", e))),
+    };
+    let rtl = match &obs.rtl {
+        Ok(v) => v,
+        Err(e) => return Some(("positions-error".into(), format!("glyph_positions(RTL) failed: {}", e))),
+    };
+    let has_cursive = exp.out.iter().any(|x| matches!(x.attach, Attach::Cursive { .. }));
+    for (i, o) in exp.out.iter().enumerate() {
+        let adv = font_adv[i] + o.adv;
+        // the advance of a glyph with a cursive exit link is what the layout engine adjusts
+        let holder = matches!(o.attach, Attach::Cursive { .. });
+        if !holder {
+            if ltr[i].0 != adv || ltr[i].1 != 0 {
+                return Some(("position-mismatch".into(), format!("LTR glyph {}: advance ({}, {}) expected ({}, 0)", i, ltr[i].0, ltr[i].1, adv)));
+            }
+        }
+        if !has_cursive && (rtl[i].0 != adv || rtl[i].1 != 0) {
+            return Some(("position-mismatch-rtl".into(), format!("RTL glyph {}: advance ({}, {}) expected ({}, 0)", i, rtl[i].0, rtl[i].1, adv)));
+        }
+    }
+    if has_cursive {
+        // observed absolute origins under the LTR pen model
+        let mut origins: Vec<(i32, i32)> = Vec::new();
+        let mut pen = 0i32;
+        for v in ltr.iter() {
+            origins.push((pen + v.2, v.3));
+            pen += v.0;
+        }
+        // (the defective cross-stream pass for flag-clear links walks the whole chain, so links
+        // with the flag set are affected too when the run contains a flag-clear link)
+        let any_flag_clear = exp.out.iter().any(|x| matches!(x.attach, Attach::Cursive { rtl: false, .. }));
+        let mut target = vec![false; exp.out.len()];
+        for o in &exp.out {
+            if let Attach::Cursive { next, .. } = &o.attach {
+                target[*next] = true;
+            }
+        }
+        for (i, o) in exp.out.iter().enumerate() {
+            match &o.attach {
+                Attach::None => {
+                    if !target[i] && (ltr[i].2, ltr[i].3) != (o.dx, o.dy) {
+                        return Some(("position-mismatch".into(), format!("LTR glyph {} (gid {}): offset ({}, {}) expected ({}, {})", i, s[i].gid, ltr[i].2, ltr[i].3, o.dx, o.dy)));
+                    }
+                }
+                Attach::Mark { base, ba, ma, post } => {
+                    let twice = if devs & dev::POS_BASE_TWICE != 0 && matches!(exp.out[*base].attach, Attach::None) { (exp.out[*base].dx, exp.out[*base].dy) } else { (0, 0) };
+                    let want = (origins[*base].0 + ba.0 as i32 - ma.0 as i32 + post.0 + twice.0, origins[*base].1 + ba.1 as i32 - ma.1 as i32 + post.1 + twice.1);
+                    if origins[i] != want {
+                        return Some(("position-mismatch".into(), format!("LTR glyph {} (gid {}): mark origin {:?} expected {:?} (base {} at {:?}); state {:?}", i, s[i].gid, origins[i], want, base, origins[*base], o)));
+                    }
+                }
+                Attach::Cursive { next, rtl: rtl_flag, exit, entry } => {
+                    let (a, b) = (origins[i], origins[*next]);
+                    // exit anchor of this glyph and entry anchor of the next coincide
+                    let x_ok = b.0 + entry.0 as i32 == a.0 + exit.0 as i32;
+                    if !x_ok {
+                        if devs & dev::CURS_X_ENTRY != 0 && ltr[i].0 == exit.0 as i32 {
+                            rec_classes.push("cursive:x-by-defect-model".into());
+                        } else {
+                            return Some((
+                                "position-mismatch".into(),
+                                format!("LTR cursive link {}->{}: exit anchor at x {} but entry anchor at x {} (origins {:?} {:?}, exit {:?}, entry {:?}, advance of first glyph {})", i, next, a.0 + exit.0 as i32, b.0 + entry.0 as i32, a, b, exit, entry, ltr[i].0),
+                            ));
+                        }
+                    } else {
+                        rec_classes.push("cursive:x-aligned".into());
+                    }
+                    let y_ok = b.1 + entry.1 as i32 == a.1 + exit.1 as i32;
+                    if !y_ok {
+                        let _ = rtl_flag;
+                        if any_flag_clear && devs & dev::CURS_Y_CLEAR != 0 {
+                            rec_classes.push("cursive:y-known-wrong-flag-clear".into());
+                        } else {
+                            return Some((
+                                "position-mismatch".into(),
+                                format!("LTR cursive link {}->{} (rtl flag {}): exit anchor at y {} but entry anchor at y {} (origins {:?} {:?}, exit {:?}, entry {:?})", i, next, rtl_flag, a.1 + exit.1 as i32, b.1 + entry.1 as i32, a, b, exit, entry),
+                            ));
+                        }
+                    } else {
+                        rec_classes.push("cursive:y-aligned".into());
+                    }
+                }
+            }
+        }
+        rec_classes.push("level2:ltr-cursive".into());
+        rec_classes.push("level2-skipped:rtl-cursive".into());
+        return None;
+    }
+    match refm::place_ltr(&exp.out, &font_adv, devs) {
+        Some(placed) => {
+            let mut pen = 0i32;
+            for (i, pl) in placed.iter().enumerate() {
+                let (x, y) = (pen + ltr[i].2, ltr[i].3);
+                if x != pl.x || y != pl.y {
+                    return Some((
+                        "position-mismatch".into(),
+                        format!(
+                            "LTR glyph {} (gid {}): origin ({}, {}) [pen {} + offset ({}, {})] expected ({}, {}); reference state {:?}",
+                            i, s[i].gid, x, y, pen, ltr[i].2, ltr[i].3, pl.x, pl.y, exp.out[i]
+                        ),
+                    ));
+                }
+                pen += ltr[i].0;
+            }
+            rec_classes.push("level2:ltr".into());
+        }
+        None => rec_classes.push("level2-skipped:cursive".into()),
+    }
+    // RTL: only where both plausible consumer conventions agree — every glyph between a base
+    // (exclusive) and its mark (inclusive) has a zero total advance
+    if let Some(offs) = refm::offsets_zero_advance_marks(&exp.out, devs) {
+        let mut comparable = true;
+        for (i, o) in exp.out.iter().enumerate() {
+            if let Attach::Mark { base, .. } = &o.attach {
+                // chains resolve through earlier marks; require zero advance for everything
+                // after the ultimate base up to the mark
+                let mut b = *base;
+                while let Attach::Mark { base: bb, .. } = &exp.out[b].attach {
+                    b = *bb;
+                }
+                if (b + 1..=i).any(|k| font_adv[k] + exp.out[k].adv != 0) {
+                    comparable = false;
+                }
+            }
+        }
+        if comparable {
+            for (i, off) in offs.iter().enumerate() {
+                if (rtl[i].2, rtl[i].3) != *off {
+                    return Some((
+                        "position-mismatch-rtl".into(),
+                        format!("RTL glyph {} (gid {}): offset ({}, {}) expected ({}, {}); reference state {:?}", i, s[i].gid, rtl[i].2, rtl[i].3, off.0, off.1, exp.out[i]),
+                    ));
+                }
+            }
+            rec_classes.push("level2:rtl".into());
+            if exp.out.iter().any(|o| matches!(o.attach, Attach::Mark { .. })) {
+                rec_classes.push("level2:rtl-with-marks".into());
+            }
+        } else {
+            rec_classes.push("level2-skipped:rtl-mark-advance".into());
+        }
+    }
+    None
+}
+
+fn render_string(s: &[GlyphIn]) -> String {
+    s.iter()
+        .map(|g| if g.comp != 0 || g.lig { format!("{}{}{}", g.gid, if g.lig { "L" } else { "" }, if g.comp != 0 { format!("c{}", g.comp) } else { String::new() }) } else { g.gid.to_string() })
+        .collect::<Vec<_>>()
+        .join(" ")
+}
+
+pub fn check_case(tape: &Vec<u32>, rec: &mut Rec) -> CaseResult {
+    let p = build_program(tape);
+    check_program(&p, rec)
+}
+
+pub fn check_program(p: &Program, rec: &mut Rec) -> CaseResult {
+    let b = match build(p) {
+        Ok(b) => b,
+        Err(TooBig) => {
+            rec.class("excluded:table-too-big");
+            return Ok(());
+        }
+    };
+    rec.artefact("font", &b.font);
+    rec.hash_bytes(&b.font);
+    let rc = RefCtx { p, b: &b };
+    let mut any_nontrivial = false;
+    let mut classes: Vec<String> = Vec::new();
+    let mut evals = 0u64;
+    let base_tags: [[u8; 4]; 4] = [*b"dist", *b"kern", *b"mark", *b"mkmk"];
+    for (si, s) in p.strings.iter().enumerate() {
+        rec.hash_bytes(render_string(s).as_bytes());
+        let kerning = p.kerning[si];
+        let mut tags: Vec<[u8; 4]> = base_tags.iter().copied().filter(|t| kerning || t != b"kern").collect();
+        tags.extend(p.custom.iter().copied());
+        let (steps, ordered) = if p.gpos.is_some() {
+            refm::steps_for(p.gpos.as_ref(), p.kern.is_some(), b"latn", p.lang.as_ref(), &tags)
+        } else if p.kern.is_some() {
+            // no GPOS: the fallback applies the kern table whatever the kerning flag says
+            (vec![Step::KernTable], true)
+        } else {
+            (vec![], true)
+        };
+        if !ordered {
+            classes.push("excluded:feature-order".into());
+            continue;
+        }
+        let r0 = rc.run(s, &steps, 0);
+        let all_devs: u32 = dev::ALL.iter().fold(0, |a, b| a | b);
+        let rall = rc.run(s, &steps, present_devs());
+        if r0.notes.overflow || rall.notes.overflow {
+            classes.push("excluded:i16-overflow".into());
+            continue;
+        }
+        if !r0.notes.ambiguous.is_empty() || !rall.notes.ambiguous.is_empty() {
+            for a in r0.notes.ambiguous.iter().chain(rall.notes.ambiguous.iter()) {
+                classes.push(format!("excluded:{}", a));
+            }
+            continue;
+        }
+        evals += 1;
+        let obs = observe(&b.font, s, &p.custom, p.lang, kerning)?;
+        let ctx_msg = |d: &str| {
+            format!(
+                "string [{}] kerning={} steps {:?}: {}\nprogram: gdef {:?}\ngpos {:?}\nkern {:?}\nadvances {:?}",
+                render_string(s), kerning, steps, d, p.gdef, p.gpos, p.kern, p.advances
+            )
+        };
+        if std::env::var("C05_DEBUG").is_ok() {
+            use std::io::Write;
+            if let Ok(mut f) = std::fs::OpenOptions::new().create(true).append(true).open(std::env::var("C05_DEBUG").unwrap()) {
+                let _ = writeln!(f, "gdef {:?}\ngpos {:?}\nkern {:?}", p.gdef, p.gpos, p.kern);
+                // prefix trace: allsorts and the references after the first k lookups only
+                if p.gpos.is_some() && steps.iter().all(|x| matches!(x, Step::Lookup(_))) {
+                    for k in 1..=steps.len() {
+                        let mut p2 = p.clone();
+                        p2.kern = None;
+                        p2.custom = vec![];
+                        let g = p2.gpos.as_mut().unwrap();
+                        g.features = vec![Feature { tag: *b"mark", lookups: steps[..k].iter().map(|x| if let Step::Lookup(i) = x { *i } else { 0 }).collect() }];
+                        g.scripts = vec![ScriptM { tag: *b"DFLT", default: Some(vec![0]), langsys: vec![] }];
+                        if let Ok(b2) = build(&p2) {
+                            let rc2 = RefCtx { p: &p2, b: &b2 };
+                            let o = observe(&b2.font, s, &[], None, true);
+                            let _ = writeln!(f, "  after {:?}:\n    spec {:?}\n    all  {:?}\n    obs  {:?}", &steps[..k],
+                                rc2.run(s, &steps[..k], 0).out.iter().map(|o| (o.adv, o.dx, o.dy)).collect::<Vec<_>>(),
+                                rc2.run(s, &steps[..k], all_devs).out.iter().map(|o| (o.adv, o.dx, o.dy)).collect::<Vec<_>>(),
+                                o.map(|o| o.infos.iter().map(|i| (i.kerning, i.placement)).collect::<Vec<_>>()).map_err(|e| e.msg));
+                        }
+                    }
+                }
+                let _ = writeln!(f, "string [{}] steps {:?}\n r0   {:?}\n rall {:?}\n obs  {:?}\n ltr {:?}\n rtl {:?}", render_string(s), steps, r0.out, rall.out,
+                    obs.infos.iter().map(|i| (i.glyph.glyph_index, i.kerning, i.placement)).collect::<Vec<_>>(), obs.ltr, obs.rtl);
+            }
+        }
+        let mut cls: Vec<String> = Vec::new();
+        let verdict = diff_all(p, s, &obs, &r0, 0, false, &mut cls);
+        let mut used = &r0;
+        let attributed: RunResult;
+        if let Some((sig, d)) = verdict {
+            // attribution by defect model
+            let kern_unreadable = match (&p.kern, &b.kern) {
+                (Some(m), Some(bytes)) => refm::kern2_rejected(m, &KernBytes { bytes, layouts: &b.kern_layouts }),
+                _ => false,
+            };
+            // prediction of the reference with deviation set `set`; None if the deviating run
+            // meets an ambiguity or leaves the i16 range
+            let predict = |set: u32| -> Option<(RunResult, bool)> {
+                let kern_err = kern_unreadable && set & dev::KERN2_ARRAY != 0;
+                let rs = if kern_err {
+                    let steps2: Vec<Step> = steps.iter().filter(|x| **x != Step::KernTable).cloned().collect();
+                    rc.run(s, &steps2, set)
+                } else {
+                    rc.run(s, &steps, set)
+                };
+                if rs.notes.overflow {
+                    return None;
+                }
+                Some((rs, kern_err))
+            };
+            let explains = |set: u32, cls_out: &mut Vec<String>| -> Option<RunResult> {
+                let (rs, kern_err) = predict(set)?;
+                let mut c2 = Vec::new();
+                let d = diff_all(p, s, &obs, &rs, set, kern_err, &mut c2);
+                if let Ok(path) = std::env::var("C05_DEBUG") {
+                    use std::io::Write;
+                    if let Ok(mut f) = std::fs::OpenOptions::new().create(true).append(true).open(path) {
+                        let _ = writeln!(f, "  try set {:#x}: {:?}", set, d);
+                    }
+                }
+                if d.is_none() {
+                    *cls_out = c2;
+                    Some(rs)
+                } else {
+                    None
+                }
+            };
+            let mut found: Option<(u32, RunResult)> = None;
+            // (a) every deviation allsorts currently exhibits (decided once per process by the
+            // pinned cases), then greedily drop each one that is not needed for this case
+            let present = present_devs();
+            if let Some(rs) = explains(present, &mut cls) {
+                let mut set = present;
+                let mut best = rs;
+                for k in dev::ALL.iter() {
+                    if set & *k == 0 {
+                        continue;
+                    }
+                    if let Some(rs) = explains(set & !*k, &mut cls) {
+                        set &= !*k;
+                        best = rs;
+                    }
+                }
+                if set != 0 {
+                    found = Some((set, best));
+                }
+            }
+            // (b) subsets of up to three of them (a deviating run may meet an ambiguity that a
+            // smaller set avoids)
+            let relevant: Vec<u32> = dev::ALL.iter().copied().filter(|k| present & *k != 0).collect();
+            if found.is_none() {
+                let n = relevant.len();
+                let mut sets: Vec<u32> = Vec::new();
+                for i in 0..n {
+                    sets.push(relevant[i]);
+                }
+                for i in 0..n {
+                    for j in i + 1..n {
+                        sets.push(relevant[i] | relevant[j]);
+                    }
+                }
+                for i in 0..n {
+                    for j in i + 1..n {
+                        for k in j + 1..n {
+                            sets.push(relevant[i] | relevant[j] | relevant[k]);
+                        }
+                    }
+                }
+                for set in sets {
+                    if let Some(rs) = explains(set, &mut cls) {
+                        found = Some((set, rs));
+                        break;
+                    }
+                }
+            }
+            match found {
+                Some((set, rs)) => {
+                    for k in dev::ALL.iter() {
+                        if set & k != 0 {
+                            classes.push(format!("attributed:{}", dev::name(*k)));
+                        }
+                    }
+                    attributed = rs;
+                    used = &attributed;
+                }
+                None => {
+                    let names: Vec<&str> = relevant.iter().map(|k| dev::name(*k)).collect();
+                    return Err(fail(&sig, ctx_msg(&format!("{} (no combination of the known deviations {:?} reproduces the output)", d, names))));
+                }
+            }
+        } else {
+            classes.push("matches-spec".into());
+        }
+        classes.extend(cls);
+        // the direct entry point must agree with Font::shape (first string only; same features)
+        if si == 0 && kerning {
+            if let Some(infos) = observe_direct(&b, s, &tags, p.lang)? {
+                if let Some(d) = diff_infos(&infos, s, &used.out) {
+                    return Err(fail("direct-mismatch", ctx_msg(&format!("gpos::apply_features disagrees with the result accepted for Font::shape: {}", d))));
+                }
+                classes.push("entry:apply_features".into());
+            }
+        }
+        let nontrivial = r0.out.iter().any(|o| !o.is_trivial());
+        any_nontrivial |= nontrivial;
+        for c in &r0.notes.classes {
+            classes.push(c.clone());
+        }
+        if r0.out.iter().filter(|o| matches!(o.attach, Attach::Mark { .. })).count() >= 2 {
+            let mut per_base: BTreeMap<usize, usize> = BTreeMap::new();
+            for o in &r0.out {
+                if let Attach::Mark { base, .. } = &o.attach {
+                    *per_base.entry(*base).or_default() += 1;
+                }
+            }
+            if per_base.values().any(|c| *c >= 2) {
+                classes.push("marks:several-on-one-base".into());
+            }
+        }
+        if p.gpos.is_none() && p.kern.is_some() {
+            classes.push("entry:fallback-kern-only".into());
+        }
+        if !kerning {
+            classes.push("kerning-off".into());
+        }
+    }
+    classes.sort();
+    classes.dedup();
+    for c in classes.iter().take(60) {
+        rec.class(c);
+    }
+    rec.evaluations(evals.saturating_sub(1));
+    rec.set_nontrivial(any_nontrivial);
+    rec.sample(|| format!("{} lookups, strings: {}", p.gpos.as_ref().map(|g| g.lookups.len()).unwrap_or(0), p.strings.iter().map(|s| render_string(s)).collect::<Vec<_>>().join(" | ")));
+    Ok(())
+}
+
+
+// ---------------------------------------------------------------------------------------------
+// pinned minimal cases: one per known deviation. They decide (once per process) which of the
+// deviations allsorts currently exhibits, and make a silently repaired finding visible.
+
+fn simple_lookup(ltype: u16, flags: Flags, st: Subtable) -> Lookup {
+    Lookup { ltype, flags, subtables: vec![st], extension: false, share: false }
+}
+
+fn single_xa(glyphs: &[Gid], xa: i16) -> Subtable {
+    Subtable::Single1 { cov: Cov::new(glyphs.to_vec(), 1), fmt: 4, value: Value { xa, ..Value::default() } }
+}
+
+fn anchor(x: i16, y: i16) -> AnchorM {
+    AnchorM { x, y, fmt: 1, point: 0 }
+}
+
+/// glyphs 1,2 bases, 3,4,5 marks (attach classes 2,1,1), 6 ligature; mark set 0 = {4}
+fn pinned_program(lookups: Vec<Lookup>, features: Vec<(&[u8; 4], Vec<u16>)>, kern: Option<KernModel>, string: &[Gid]) -> Program {
+    let classes: BTreeMap<Gid, u16> = [(1, 1), (2, 1), (3, 3), (4, 3), (5, 3), (6, 2)].into_iter().collect();
+    let attach: BTreeMap<Gid, u16> = [(3, 2), (4, 1), (5, 1)].into_iter().collect();
+    let gdef = GdefModel {
+        glyph_classes: Some(ClassDefM { map: classes, fmt: 2 }),
+        mark_attach: Some(ClassDefM { map: attach, fmt: 2 }),
+        mark_sets: vec![Cov::new(vec![4], 1)],
+        minor: 2,
+    };
+    let has_gpos = !lookups.is_empty();
+    let feats: Vec<Feature> = features.iter().map(|(t, l)| Feature { tag: **t, lookups: l.clone() }).collect();
+    let nf = feats.len() as u16;
+    let gpos = GposModel { lookups, features: feats, scripts: vec![ScriptM { tag: *b"DFLT", default: Some((0..nf).collect()), langsys: vec![] }], minor: 0 };
+    Program {
+        nglyphs: 8,
+        gdef: if has_gpos { Some(gdef) } else { None },
+        gpos: if has_gpos { Some(gpos) } else { None },
+        kern,
+        advances: vec![600, 500, 520, 0, 0, 0, 700, 500],
+        strings: vec![string.iter().map(|g| GlyphIn { gid: *g, comp: 0, lig: false }).collect()],
+        custom: vec![],
+        lang: None,
+        kerning: vec![true],
+        zero_advance_marks: true,
+    }
+}
+
+pub fn pinned_case(k: u32) -> Program {
+    let plain = Flags::default();
+    let cov = |g: &[Gid]| Cov::new(g.to_vec(), 1);
+    match k {
+        dev::PAIR_NO_SKIP => pinned_program(
+            vec![simple_lookup(
+                2,
+                plain,
+                Subtable::Pair1 { cov: cov(&[1]), fmt1: 4, fmt2: 4, sets: vec![vec![(1, Value { xa: -100, ..Value::default() }, Value { xa: 10, ..Value::default() })]] },
+            )],
+            vec![(b"kern", vec![0])],
+            None,
+            &[1, 1, 1],
+        ),
+        dev::CTX_NO_SKIP => pinned_program(
+            vec![
+                simple_lookup(7, plain, Subtable::Context3 { covs: vec![cov(&[1]), cov(&[1])], records: vec![(0, 1)] }),
+                simple_lookup(1, plain, single_xa(&[1], 50)),
+            ],
+            vec![(b"kern", vec![0])],
+            None,
+            &[1, 1, 1],
+        ),
+        dev::NESTED_FLAGS => pinned_program(
+            vec![
+                simple_lookup(7, Flags { ignore_marks: true, ..plain }, Subtable::Context3 { covs: vec![cov(&[1]), cov(&[2])], records: vec![(1, 1)] }),
+                simple_lookup(1, plain, single_xa(&[2, 3], 50)),
+            ],
+            vec![(b"kern", vec![0])],
+            None,
+            &[1, 3, 2],
+        ),
+        dev::YADV_DROP => pinned_program(
+            vec![simple_lookup(1, plain, Subtable::Single1 { cov: cov(&[1]), fmt: 12, value: Value { xa: 50, ya: 10, ..Value::default() } })],
+            vec![(b"kern", vec![0])],
+            None,
+            &[1, 2],
+        ),
+        dev::MARK_FLAGS => pinned_program(
+            vec![simple_lookup(
+                4,
+                Flags { mark_attach_type: 1, ..plain },
+                Subtable::MarkBase { mark_cov: cov(&[3]), base_cov: cov(&[1]), class_count: 1, marks: vec![(0, anchor(10, 20))], bases: vec![vec![Some(anchor(300, 400))]] },
+            )],
+            vec![(b"mark", vec![0])],
+            None,
+            &[1, 3],
+        ),
+        dev::MKMK_ANY => pinned_program(
+            vec![simple_lookup(
+                6,
+                plain,
+                Subtable::MarkMark { mark1_cov: cov(&[5]), mark2_cov: cov(&[3]), class_count: 1, marks: vec![(0, anchor(10, 20))], mark2s: vec![vec![Some(anchor(30, 400))]] },
+            )],
+            vec![(b"mkmk", vec![0])],
+            None,
+            &[1, 3, 4, 5],
+        ),
+        dev::CURS_FLAGS => pinned_program(
+            vec![simple_lookup(
+                3,
+                Flags { rtl: true, ..plain },
+                Subtable::Cursive { cov: cov(&[1, 2]), recs: vec![(Some(anchor(0, 10)), Some(anchor(480, 30))), (Some(anchor(0, 50)), Some(anchor(500, 70)))] },
+            )],
+            vec![(b"test", vec![0])],
+            None,
+            &[1, 3, 2],
+        ),
+        dev::KERN_ASSIGN => pinned_program(
+            vec![simple_lookup(1, plain, single_xa(&[1], 50))],
+            vec![(b"dist", vec![0])],
+            Some(KernModel { subs: vec![KernSub { coverage: KERN_HORIZONTAL, data: KernData::F0(vec![(1, 2, -30)]) }], trailing: 0 }),
+            &[1, 2],
+        ),
+        dev::KERN2_ARRAY => pinned_program(
+            vec![],
+            vec![],
+            Some(KernModel {
+                subs: vec![KernSub {
+                    coverage: KERN_HORIZONTAL,
+                    data: KernData::F2 { left_first: 1, left: vec![1], right_first: 2, right: vec![1], matrix: vec![vec![0, 0], vec![0, -70]], layout: 0 },
+                }],
+                trailing: 0,
+            }),
+            &[1, 2],
+        ),
+        dev::MARKSET_NONMARK => pinned_program(
+            vec![simple_lookup(1, Flags { mark_filter_set: Some(0), ..plain }, single_xa(&[1], 50))],
+            vec![(b"kern", vec![0])],
+            None,
+            &[1, 2],
+        ),
+        dev::POS_BASE_TWICE => pinned_program(
+            vec![
+                simple_lookup(1, plain, Subtable::Single1 { cov: cov(&[1]), fmt: 3, value: Value { xp: 100, yp: 7, ..Value::default() } }),
+                simple_lookup(
+                    4,
+                    plain,
+                    Subtable::MarkBase { mark_cov: cov(&[3]), base_cov: cov(&[1]), class_count: 1, marks: vec![(0, anchor(10, 20))], bases: vec![vec![Some(anchor(300, 400))]] },
+                ),
+            ],
+            vec![(b"dist", vec![0]), (b"mark", vec![1])],
+            None,
+            &[1, 3],
+        ),
+        dev::CURS_X_ENTRY => pinned_program(
+            vec![simple_lookup(
+                3,
+                Flags { rtl: true, ignore_marks: true, ..plain },
+                Subtable::Cursive { cov: cov(&[1, 2]), recs: vec![(Some(anchor(0, 10)), Some(anchor(480, 30))), (Some(anchor(20, 50)), Some(anchor(500, 70)))] },
+            )],
+            vec![(b"test", vec![0])],
+            None,
+            &[1, 2],
+        ),
+        dev::CURS_Y_CLEAR => pinned_program(
+            vec![simple_lookup(
+                3,
+                Flags { rtl: false, ignore_marks: true, ..plain },
+                Subtable::Cursive { cov: cov(&[1, 2]), recs: vec![(Some(anchor(0, 10)), Some(anchor(480, 30))), (Some(anchor(0, 50)), Some(anchor(500, 70)))] },
+            )],
+            vec![(b"test", vec![0])],
+            None,
+            &[1, 2],
+        ),
+        _ => pinned_program(
+            vec![Lookup {
+                ltype: 1,
+                flags: plain,
+                subtables: vec![Subtable::Single1 { cov: cov(&[1]), fmt: 0, value: Value::default() }, single_xa(&[1], 50)],
+                extension: false,
+                share: false,
+            }],
+            vec![(b"kern", vec![0])],
+            None,
+            &[1, 2],
+        ),
+    }
+}
+
+#[derive(Clone, Copy, Debug, PartialEq, Eq)]
+pub enum PinnedStatus {
+    /// allsorts reproduces the deviation
+    Present,
+    /// allsorts matches the specification on the pinned case
+    Absent,
+    /// neither
+    Unexplained,
+}
+
+pub fn pinned_status(k: u32) -> Result<(PinnedStatus, String), Fail> {
+    let mut p = pinned_case(k);
+    p.custom = vec![*b"test"];
+    let p = p;
+    let b = build(&p).map_err(|_| fail("pinned-case", "pinned case does not encode".into()))?;
+    let s = &p.strings[0];
+    let tags: Vec<[u8; 4]> = vec![*b"dist", *b"kern", *b"mark", *b"mkmk", *b"test"];
+    let steps = if p.gpos.is_some() { refm::steps_for(p.gpos.as_ref(), p.kern.is_some(), b"latn", None, &tags).0 } else { vec![Step::KernTable] };
+    let rc = RefCtx { p: &p, b: &b };
+    let obs = observe(&b.font, s, &p.custom, None, true)?;
+    let r0 = rc.run(s, &steps, 0);
+    let kern_unreadable = match (&p.kern, &b.kern) {
+        (Some(m), Some(bytes)) => refm::kern2_rejected(m, &KernBytes { bytes, layouts: &b.kern_layouts }),
+        _ => false,
+    };
+    let rk = rc.run(s, &steps, k);
+    let mut c = Vec::new();
+    let d0 = diff_all(&p, s, &obs, &r0, 0, false, &mut c);
+    let dk = diff_all(&p, s, &obs, &rk, k, kern_unreadable && k == dev::KERN2_ARRAY, &mut c);
+    let render = format!(
+        "{} on [{}]: allsorts {:?} ltr {:?}; spec {:?}; deviation {:?}",
+        dev::name(k),
+        render_string(s),
+        obs.infos.iter().map(|i| (i.kerning, i.placement)).collect::<Vec<_>>(),
+        obs.ltr.as_ref().map(|v| v.iter().map(|p| (p.0, p.2, p.3)).collect::<Vec<_>>()),
+        r0.out,
+        rk.out
+    );
+    Ok(match (d0, dk) {
+        (None, None) => (PinnedStatus::Unexplained, format!("{} — spec and deviation coincide on the pinned case", render)),
+        (None, Some(_)) => (PinnedStatus::Absent, render),
+        (Some(_), None) => (PinnedStatus::Present, render),
+        (Some((_, a)), Some((_, b))) => (PinnedStatus::Unexplained, format!("{} — vs spec: {}; vs deviation: {}", render, a, b)),
+    })
+}
+
+static PRESENT: std::sync::OnceLock<u32> = std::sync::OnceLock::new();
+static LISTED: std::sync::OnceLock<u32> = std::sync::OnceLock::new();
+
+/// is deviation `k` listed with status `known` in known_findings.json (signature `C05:<name>`)?
+/// Read directly (not through the strict-mode filter) so that replays attribute like runs do.
+fn listed_known(k: u32) -> bool {
+    let mask = *LISTED.get_or_init(|| {
+        let known = crate::engine::known::known_for("C05");
+        let mut m = 0;
+        for d in dev::ALL.iter() {
+            if known.contains_key(&format!("C05:{}", dev::name(*d))) {
+                m |= *d;
+            }
+        }
+        m
+    });
+    mask & k != 0
+}
+
+/// deviations allsorts currently exhibits on their pinned cases
+pub fn present_devs() -> u32 {
+    *PRESENT.get_or_init(|| {
+        let mut m = 0;
+        let mut dump = String::new();
+        for k in dev::ALL.iter() {
+            let st = pinned_status(*k);
+            // only deviations that known_findings.json lists as `known` may explain a mismatch: a
+            // repaired (or never listed) deviation that shows up again must be reported
+            if let Ok((PinnedStatus::Present, _)) = &st {
+                if listed_known(*k) {
+                    m |= *k;
+                }
+            }
+            match st {
+                Ok((st, text)) => dump.push_str(&format!("{:?}: {}\n", st, text)),
+                Err(f) => dump.push_str(&format!("error {}: {}\n", f.sig, f.msg)),
+            }
+        }
+        if let Ok(path) = std::env::var("C05_PINNED") {
+            let _ = std::fs::write(path, dump);
+        }
+        m
+    })
+}
+
+fn strategy() -> impl Strategy<Value = Vec<u32>> {
+    proptest::collection::vec(any::<u32>(), TAPE_LEN..=TAPE_LEN)
+}
 
 impl Property for C05 {
     fn id(&self) -> &'static str {
         "C05"
     }
     fn rule(&self) -> String {
-        "not implemented".to_string()
+        "a fixed-length entropy tape drawn by proptest drives a generator of GDEF (glyph classes, mark attach classes, mark glyph sets; classdef/coverage formats 1-2) + GPOS programs \
+         (1-5 feature lookups plus nested ones, types 1.1/1.2, 2.1/2.2, 3, 4, 5, 6, 7.1-7.3, 8.1-8.3, optional extension (type 9) wrapping, lookup flags, 1-3 subtables, \
+         value formats over all 16 non-device bit combinations plus NULL device offsets, anchor formats 1-3, script/langsys variants, features dist/kern/mark/mkmk/test/ss01) and/or a kern table \
+         (1-3 subtables, format 0 / format 2 in three layouts, coverage bits horizontal/minimum/cross-stream/override); my own encoders put the tables into a complete font and 4 glyph strings \
+         (a seed string the rules were derived from, mutations of it, random strings, base+marks clusters; 0-12 glyphs, marks with ligature component indices) are shaped with Font::shape \
+         (kerning on/off; kern-only fonts through the fallback) and, for the first string, gpos::apply_features. Info.kerning/Info.placement, then glyph_positions() LTR (absolute pen positions, arbitrary advances) \
+         and RTL (only where every glyph between a base and its mark has zero advance), are compared with an interpreter written from the OpenType spec. \
+         14 known deviations of allsorts are defect models of the interpreter: 14 pinned minimal cases decide per run which of them allsorts exhibits; a mismatching string passes only if the reference \
+         with a subset of those deviations reproduces allsorts' output exactly (classes attributed:*), anything else fails. \
+         Non-trivial = the spec reference produced a non-zero adjustment or an attachment for some string; distinct by hash of font bytes + strings."
+            .to_string()
     }
-    fn run(&self, _ctx: &mut Ctx) {}
+    fn assumptions(&self) -> Vec<String> {
+        vec![
+            "mark attachment overrides placements applied to the mark earlier; placements applied later shift the attached mark".into(),
+            "PairPos format 2 applies (ends the subtable search) whenever the first glyph is covered, format 1 only when the pair is listed".into(),
+            "nested lookups are applied at the matched input position regardless of the nested lookup's own flags; a nested pair lookup finds its second glyph with the nested lookup's flags".into(),
+            "mark-to-base/ligature: the base is the nearest preceding glyph whose GDEF class is not mark; mark-to-mark: the preceding glyph not skipped by the mark-filtering part of the flags, which must be a mark".into(),
+            "yAdvance is ignored in a horizontal run (the other fields of the value record still apply)".into(),
+            "RTL absolute positions are asserted only when every glyph between a base and its mark has zero advance; cursive links are checked LTR only, as coincidence of exit and entry anchors".into(),
+            "kern format 2 left class values are offsets from the subtable start (Apple reference; OpenType text 'adding the class values to the address of the subtable'); a format 2 subtable is only generated as the last subtable".into(),
+            "excluded and counted (classes excluded:*): accumulated values outside i16, placement combined with a cursive link on the same glyph, mark-to-mark across different ligature components, ligature component index beyond the component count, hits in kern 'minimum' or cross-stream subtables".into(),
+            "never generated: mark filtering set combined with markAttachmentType/ignoreMarks on one lookup; ignoreBase/ignoreLigatures on mark attachment lookups; marks in cursive coverage; non-marks in mark coverage; sequence indices beyond the input; a lookup in two features; device/VariationIndex tables; GSUB (ligature components are fed as liga_component_pos)".into(),
+        ]
+    }
+    fn run(&self, ctx: &mut Ctx) {
+        ctx.enumerate("pinned-findings", dev::ALL.len() as u64, true, |i, rec| {
+            let k = dev::ALL[i as usize];
+            let (st, text) = pinned_status(k)?;
+            match st {
+                // the pinned case of a deviation shows it: fails with the finding's own signature —
+                // tolerated (and printed as KNOWN-FINDING) iff known_findings.json lists it as known
+                PinnedStatus::Present => {
+                    rec.class(&format!("finding-present:{}", dev::name(k)));
+                    return Err(fail(dev::name(k), text));
+                }
+                PinnedStatus::Absent => rec.class(&format!("finding-absent:{}", dev::name(k))),
+                PinnedStatus::Unexplained => return Err(fail("pinned-case", text)),
+            }
+            rec.sample(|| text.clone());
+            rec.nontrivial();
+            rec.hash_u64(k as u64);
+            Ok(())
+        });
+        let n = ctx.cases(250_000, 4_000_000);
+        ctx.section("programs", n, strategy(), |tape, rec| check_case(tape, rec));
+    }
 }
